@@ -751,6 +751,59 @@ pub fn check_legacy_merges(st: &mut Stats) -> Option<(String, String)> {
         (Ok(a), Ok(b)) => (a, b),
         (a, b) => return Some(("machinery".into(), format!("sample columnars unreadable: {:?} {:?}", a.err(), b.err()))),
     };
+    // every column of the legacy files answers value-range lookups like a fresh column with the same rows
+    for (fname, r) in [("v1", &v1), ("v2", &v2)] {
+        let cols = match r.list_columns() {
+            Ok(c) => c,
+            Err(e) => return Some(("machinery".into(), e.to_string())),
+        };
+        for (name, h) in cols {
+            let col = match h.open() {
+                Ok(c) => c,
+                Err(e) => return Some(("column_read_error".into(), format!("{fname} column {name}: {e}"))),
+            };
+            let rows = match read_rows(&col, r.num_docs()) {
+                Ok(x) => x,
+                Err(e) => return Some(("column_read_error".into(), format!("{fname} column {name}: {e}"))),
+            };
+            st.count("legacy_columns");
+            if let Err((rule, what)) = check_column(&col, &rows, r.num_docs(), st) {
+                return Some((rule, format!("legacy file {fname}.columnar column {name}: {what}")));
+            }
+        }
+    }
+    // required column types: a numeric column is coerced to the required type or the merge is refused;
+    // whatever comes out holds the values that went in
+    for vals in [vec![-3i64, 0, 5], vec![0, 4, 9], vec![-7, -1], vec![i64::MIN, 0, i64::MAX]] {
+        for req in [tantivy_columnar::ColumnType::U64, tantivy_columnar::ColumnType::I64, tantivy_columnar::ColumnType::F64] {
+            st.count("required_type_merges");
+            let mut w = ColumnarWriter::default();
+            for (i, v) in vals.iter().enumerate() {
+                w.record_numerical(i as u32, "x", *v);
+            }
+            let mut buf = vec![];
+            w.serialize(vals.len() as u32, None, &mut buf).unwrap();
+            let rd = ColumnarReader::open(buf).unwrap();
+            let refs = [&rd];
+            let mut out = vec![];
+            if merge_columnar(&refs, &[("x".to_string(), req)], MergeRowOrder::Stack(StackMergeOrder::stack(&refs)), &mut out).is_err() {
+                st.count("required_type_refused");
+                continue;
+            }
+            let merged = match ColumnarReader::open(out) {
+                Ok(m) => m,
+                Err(e) => return Some(("merge_output_unreadable".into(), e.to_string())),
+            };
+            let got = match all_rows(&merged) {
+                Ok(g) => g,
+                Err(e) => return Some(("merged_column_read_error".into(), e)),
+            };
+            let want: Vec<Vec<String>> = vals.iter().map(|v| vec![format!("{}", *v as f64)]).collect();
+            if got.get("x") != Some(&want) {
+                return Some(("merged_values_differ".into(), format!("an i64 column holding {vals:?} merged with required type {req:?}: the output holds {:?}", got.get("x"))));
+            }
+        }
+    }
     let multi = Spec { n: 5, presence: Presence::Multi, valfn: ValFn::Linear, ty: Ty::U64 };
     let opt = Spec { n: 5, presence: Presence::Every(2), valfn: ValFn::Lcg, ty: Ty::I64 };
     let fresh = build_columnar(&[("gen_multi", &multi), ("gen_opt", &opt)], 5);
@@ -933,7 +986,7 @@ pub fn run(ctx: &Ctx) -> Report {
     });
     rep.set("exhaustive", done == work.len());
     rep.set("work_items", work.len() as u64);
-    rep.set("rule", "columns = N in {0,1,2,63,64,65,511,512,513,1025,5119,5120,5121,10240,65535,65536,65537,70000} x presence {all, none, every 2/3/64/13000-th, first half, last row, first K around 5120, multi-valued 0-3 values} x value function {constant, linear, linear+outlier, two-level, LCG, gcd-able, extremes, <=32-bit wide range} x type {u64,i64,f64,bool,date,ip,bytes,str} (all combinations up to 513 rows, a reduced set above): values_for_doc / first / num_docs / num_values / cardinality / min-max / dictionary order and every value-range lookup with bounds at values present +-1 and far beyond; merges: every pair of 8 tiny columns stacked and shuffled with every alive subset, differing column sets over three inputs, 70000-row inputs across the 65536-row block boundary; the repository's legacy-format (v1, v2) sample columnars stacked with each other and with freshly written columnars in every order of <= 3 inputs; plus the typed fast fields of real index segments (deleted docs, two segments, merged). Non-trivial: >= 2 rows; distinct by spec");
+    rep.set("rule", "columns = N in {0,1,2,63,64,65,511,512,513,1025,5119,5120,5121,10240,65535,65536,65537,70000} x presence {all, none, every 2/3/64/13000-th, first half, last row, first K around 5120, multi-valued 0-3 values} x value function {constant, linear, linear+outlier, two-level, LCG, gcd-able, extremes, <=32-bit wide range} x type {u64,i64,f64,bool,date,ip,bytes,str} (all combinations up to 513 rows, a reduced set above): values_for_doc / first / num_docs / num_values / cardinality / min-max / dictionary order and every value-range lookup with bounds at values present +-1 and far beyond; merges: every pair of 8 tiny columns stacked and shuffled with every alive subset, differing column sets over three inputs, 70000-row inputs across the 65536-row block boundary; the repository's legacy-format (v1, v2) sample columnars stacked with each other and with freshly written columnars in every order of <= 3 inputs, every legacy column also answering every value-range lookup; i64 columns merged under a required u64 / i64 / f64 column type (coerced exactly or refused); plus the typed fast fields of real index segments (deleted docs, two segments, merged). Non-trivial: >= 2 rows; distinct by spec");
     for k in ["legacy_merges", "column_specs", "merges", "shuffled_merges", "range_lookups", "range_lookups_nontrivial", "tantivy_rows", "cardinality.Optional", "cardinality.Multivalued", "cardinality.Full"] {
         if st.counters.get(k).copied().unwrap_or(0) == 0 {
             rep.machinery_errors.push(format!("vacuous: {k} = 0"));
